@@ -1,12 +1,13 @@
-"""extract_calendar: translate the bodies of the `get_available_units` methods of calendar.py (eight classes) and of
-`Resource.get_available_units` (resource.py) into terms of PyLite (lean/PjVerif/Model/PyLite.lean).
+"""extract_calendar: translate the bodies of the `get_available_units` methods of calendar.py (eight classes), of
+`Resource.get_available_units` and of `IResource.get_nearest_availability_date` (resource.py) into terms of PyLite
+(lean/PjVerif/Model/PyLite.lean).
 
 Terms are s-expressions (nested Python lists):
   expressions  ["none"] ["num", "<int or n/d>"] ["bool", b] ["var", x] ["field", f] ["isNone", e] ["isNotNone", e]
                ["cmp", op, a, b] ["and", a, b] ["or", a, b] ["not", a] ["bin", op, a, b] ["ite", c, a, b]
-               ["units", c, d] ["dayStart", d] ["weekday", d] ["index", d, k] ["isIn", k, d]
+               ["units", c, d] ["self"] ["dayStart", d] ["timedelta", e] ["weekday", d] ["index", d, k] ["isIn", k, d]
   statements   ["assign", x, e] ["aug", x, op, e] ["ifElse", c, [then...], [else...]] ["forIn", x, e, [body...]]
-               ["continue"] ["ret", e] ["pass"]
+               ["while", c, [body...]] ["raiseRuntime"] ["continue"] ["ret", e] ["pass"]
 Anything outside this subset raises Miss - the translator never guesses.  Docstrings, type annotations, comments and
 formatting are ignored (the translation works on the `ast`).  Name-mangled fields `self.__f` are emitted as "f"."""
 import ast
@@ -15,6 +16,8 @@ from fractions import Fraction
 CLASSES = ['WorkCalendarDisjunction', 'WorkCalendarSum', 'WorkCalendarSub', 'WorkCalendarsMul', 'WorkCalendarDiv',
            'FixedCalendar', 'DirectCalendar', 'WeeklyCalendar']
 METHOD = 'get_available_units'
+SEARCH = 'get_nearest_availability_date'
+SEARCH_PARAMS = ['start_date', 'direction', 'max_days']
 
 CMP = {ast.Lt: 'lt', ast.Gt: 'gt', ast.LtE: 'le', ast.GtE: 'ge', ast.Eq: 'eq', ast.NotEq: 'ne'}
 BIN = {ast.Add: 'add', ast.Sub: 'sub', ast.Mult: 'mul', ast.Div: 'div'}
@@ -119,15 +122,37 @@ class Tr:
             return ['index', self.expr(n.value), self.expr(n.slice)]
         if isinstance(n, ast.Call) and not n.keywords:
             f = n.func
+            if isinstance(f, ast.Attribute) and f.attr == METHOD and isinstance(f.value, ast.Name) \
+                    and f.value.id == self.self_name:
+                # `self.get_available_units(d)` / `(d, None)`: the second parameter (task) of IResource's method
+                if len(n.args) == 1 or (len(n.args) == 2 and is_none(n.args[1])):
+                    return ['units', ['self'], self.expr(n.args[0])]
+                miss(n, 'call on self')
             if isinstance(f, ast.Attribute) and f.attr == METHOD and len(n.args) == 1:
                 return ['units', self.expr(f.value), self.expr(n.args[0])]
             if isinstance(f, ast.Attribute) and f.attr == 'weekday' and len(n.args) == 0:
                 return ['weekday', self.expr(f.value)]
             if isinstance(f, ast.Name) and f.id == '_day_start' and len(n.args) == 1:
                 return ['dayStart', self.expr(n.args[0])]
+        if isinstance(n, ast.Call) and isinstance(n.func, ast.Name) and n.func.id == 'timedelta' and not n.args \
+                and len(n.keywords) == 1 and n.keywords[0].arg == 'days':
+            return ['timedelta', self.expr(n.keywords[0].value)]
         miss(n, 'expression')
 
     # ---- statements
+    def harmless(self, n):
+        """argument of `RuntimeError(...)` whose evaluation cannot itself raise: a string, `self.<attr>`,
+        `<datetime variable>.strftime('<format>')`"""
+        if isinstance(n, ast.Constant) and isinstance(n.value, str):
+            return True
+        if isinstance(n, ast.Attribute) and isinstance(n.value, ast.Name) and n.value.id == self.self_name:
+            return True
+        if isinstance(n, ast.Call) and isinstance(n.func, ast.Attribute) and n.func.attr == 'strftime' \
+                and isinstance(n.func.value, ast.Name) and (n.func.value.id in self.params) and not n.keywords \
+                and len(n.args) == 1 and isinstance(n.args[0], ast.Constant) and isinstance(n.args[0].value, str):
+            return True
+        return False
+
     def target(self, t):
         if not (isinstance(t, ast.Name) and isinstance(t.ctx, ast.Store)):
             miss(t, 'assignment target')
@@ -171,6 +196,16 @@ class Tr:
             x = self.target(s.target)
             self.assigned.add(x)
             return ['forIn', x, it, self.block(s.body, True)]
+        if isinstance(s, ast.While):
+            if s.orelse:
+                miss(s, 'while-else')
+            return ['while', self.cond(s.test), self.block(s.body, True)]
+        if isinstance(s, ast.Raise):
+            e = s.exc
+            if s.cause is None and isinstance(e, ast.Call) and isinstance(e.func, ast.Name) \
+                    and e.func.id == 'RuntimeError' and not e.keywords and all(self.harmless(a) for a in e.args):
+                return ['raiseRuntime']
+            miss(s, 'raise')
         if isinstance(s, ast.Continue):
             if not in_loop:
                 miss(s, 'continue outside loop')
@@ -189,13 +224,13 @@ def strip_docstring(body):
     return body
 
 
-def method_of(tree, cls):
+def method_of(tree, cls, method=METHOD):
     found = [c for c in tree.body if isinstance(c, ast.ClassDef) and c.name == cls]
     if len(found) != 1:
         raise Miss(f'class {cls}: {len(found)} definitions')
-    fns = [f for f in found[0].body if isinstance(f, (ast.FunctionDef, ast.AsyncFunctionDef)) and f.name == METHOD]
+    fns = [f for f in found[0].body if isinstance(f, (ast.FunctionDef, ast.AsyncFunctionDef)) and f.name == method]
     if len(fns) != 1 or not isinstance(fns[0], ast.FunctionDef):
-        raise Miss(f'{cls}.{METHOD}: {len(fns)} definitions')
+        raise Miss(f'{cls}.{method}: {len(fns)} definitions')
     return fns[0]
 
 
@@ -215,10 +250,27 @@ def translate_method(fn, extra_ok):
         for n in ast.walk(fn):
             if isinstance(n, ast.Name) and n.id == x:
                 raise Miss(f'{fn.name}: parameter {x} is used')
+    no_nested_scope(fn)
+    return tr.block(strip_docstring(fn.body), False)
+
+
+def no_nested_scope(fn):
     for n in ast.walk(fn):
         if isinstance(n, (ast.Global, ast.Nonlocal, ast.Lambda, ast.FunctionDef, ast.ClassDef)) and n is not fn:
             raise Miss(f'{fn.name}: nested scope')
-    return tr.block(strip_docstring(fn.body), False)
+
+
+def translate_search(fn):
+    """`def get_nearest_availability_date(self, start_date, direction, max_days=...)`: the parameter names are fixed
+    (the Lean side binds them by name); the default of `max_days` is extracted separately (Extracted/Sched.lean)"""
+    a = fn.args
+    if fn.decorator_list or a.vararg or a.kwarg or a.kwonlyargs or a.posonlyargs:
+        raise Miss(f'{fn.name}: signature')
+    names = [x.arg for x in a.args]
+    if names[1:] != SEARCH_PARAMS:
+        raise Miss(f'{fn.name}: parameters {names}')
+    no_nested_scope(fn)
+    return Tr(names[0], set(SEARCH_PARAMS)).block(strip_docstring(fn.body), False)
 
 
 def extract(calendar_src, resource_src):
@@ -229,6 +281,7 @@ def extract(calendar_src, resource_src):
         out[cls] = translate_method(method_of(ctree, cls), False)
     rtree = ast.parse(resource_src)
     out['Resource'] = translate_method(method_of(rtree, 'Resource'), True)
+    out['IResource'] = translate_search(method_of(rtree, 'IResource', SEARCH))
     return out
 
 
@@ -272,6 +325,18 @@ PINNED = {
     'Resource': [
         ['assign', 'units', ['units', ['field', 'calendar'], ['var', 'date']]],
         ['ret', ['ite', ['isNone', ['var', 'units']], ['num', '0'], ['var', 'units']]]],
+    'IResource': [
+        ['assign', 'step', ['num', '0']],
+        ['while', ['cmp', 'lt', ['var', 'step'], ['var', 'max_days']],
+         [['ifElse', ['cmp', 'lt', ['var', 'direction'], ['num', '0']],
+           [['ifElse', ['cmp', 'gt', ['units', ['self'], ['bin', 'sub', ['var', 'start_date'], ['timedelta', ['num', '1']]]],
+                        ['num', '0']],
+             [['ret', ['var', 'start_date']]], []]],
+           [['ifElse', ['cmp', 'gt', ['units', ['self'], ['var', 'start_date']], ['num', '0']],
+             [['ret', ['var', 'start_date']]], []]]],
+          ['aug', 'start_date', 'add', ['timedelta', ['var', 'direction']]],
+          ['aug', 'step', 'add', ['num', '1']]]],
+        ['raiseRuntime']],
 }
 
 
@@ -285,8 +350,8 @@ def lean_str(s):
 
 def lean_expr(e):
     k = e[0]
-    if k == 'none':
-        return '.none'
+    if k in ('none', 'self'):
+        return f'.{k}'
     if k == 'num':
         return f'(.num {e[1]})' if e[1].isdigit() else f'(.num ({e[1]}))'
     if k == 'bool':
@@ -295,7 +360,8 @@ def lean_expr(e):
         return f'(.{k} {lean_str(e[1])})'
     if k in ('cmp', 'bin'):
         return f'(.{k} .{e[1]} {lean_expr(e[2])} {lean_expr(e[3])})'
-    if k in ('isNone', 'isNotNone', 'not', 'dayStart', 'weekday', 'and', 'or', 'ite', 'units', 'index', 'isIn'):
+    if k in ('isNone', 'isNotNone', 'not', 'dayStart', 'timedelta', 'weekday', 'and', 'or', 'ite', 'units', 'index',
+             'isIn'):
         return f'(.{k} ' + ' '.join(lean_expr(x) for x in e[1:]) + ')'
     raise Miss(f'lean_expr {e!r}')
 
@@ -319,6 +385,11 @@ def lean_stmt(s, ind):
     if k == 'forIn':
         pad = ' ' * (ind + 2)
         return f'.forIn {lean_str(s[1])} {lean_expr(s[2])}\n{pad}{lean_block(s[3], ind + 2)}'
+    if k == 'while':
+        pad = ' ' * (ind + 2)
+        return f'.while {lean_expr(s[1])}\n{pad}{lean_block(s[2], ind + 2)}'
+    if k == 'raiseRuntime':
+        return '.raiseRuntime'
     if k == 'continue':
         return '.continue'
     if k == 'ret':
@@ -330,9 +401,10 @@ def lean_stmt(s, ind):
 
 def to_lean(d):
     defs = []
-    for cls in CLASSES + ['Resource']:
-        origin = 'resource.py' if cls == 'Resource' else 'calendar.py'
-        defs.append(f'/-- {origin}: `{cls}.{METHOD}` -/\n'
+    for cls in CLASSES + ['Resource', 'IResource']:
+        origin = 'calendar.py' if cls in CLASSES else 'resource.py'
+        method = SEARCH if cls == 'IResource' else METHOD
+        defs.append(f'/-- {origin}: `{cls}.{method}` -/\n'
                     f'def src_{cls} : List PyLite.Stmt :=\n  {lean_block(d[cls], 2)}\n')
     return ('/- GENERATED by tools/extract.py (extract_calendar) from /repo/src/pjplan/calendar.py and resource.py — '
             'do not edit.  Re-checked by `lake build`. -/\n'
